@@ -1075,31 +1075,26 @@ Fixpoint eval (fuel : nat) (e : expr) (ro : bool) (vs : vars) (ctx : list ptr) (
         Ok (ctx, snd o1)
     | EUpdate l r =>
         let* o0 := ev l ro vs ctx st in
-        (fix go (cs : list ptr) (st0 : store) : res out :=
-           match cs with
-           | [] => Ok (ctx, st0)
-           | c :: rest =>
-               let* o := ev r ro vs [c] st0 in
-               match fst o with
-               | [] => go rest (snd o)
-               | q :: _ => let* st1 := update_from (snd o) c q in go rest st1
-               end
-           end) (rev (fst o0)) (snd o0)
+        (* matches visited back to front; each gets the first result of r applied to it *)
+        let* rr := iter (fun c (_ : unit) st0 =>
+                           let* o := ev r ro vs [c] st0 in
+                           match fst o with
+                           | [] => Ok (tt, snd o)
+                           | q :: _ => let* st1 := update_from (snd o) c q in Ok (tt, st1)
+                           end) (rev (fst o0)) tt (snd o0) in
+        Ok (ctx, snd rr)
     | ECompound o l r =>
         let* o0 := ev l ro vs ctx st in
-        (fix go (cs : list ptr) (st0 : store) : res out :=
-           match cs with
-           | [] => Ok (ctx, st0)
-           | c :: rest =>
-               let* cn := deref_r st0 c in
-               let '(cp, st1) := alloc_repl st0 c cn in        (* clone := candidate.Copy() *)
-               (* ref(c) = ref(clone) op r, evaluated in the caller's context *)
-               let x := [36; 99] in
-               let* oc := cross ev false no_short
-                            (lift2 (fun st2 a b => let* st3 := update_from st2 a b in Ok ([a], st3)))
-                            (EVar [36; 108]) (EBin o (EVar x) r) true (([36; 108], [c]) :: (x, [cp]) :: vs) ctx st1 in
-               go rest (snd oc)
-           end) (fst o0) (snd o0)
+        let* rr := iter (fun c (_ : unit) st0 =>
+                           let* cn := deref_r st0 c in
+                           let '(cp, st1) := alloc_repl st0 c cn in        (* clone := candidate.Copy() *)
+                           (* ref(c) = ref(clone) op r, evaluated in the caller's context *)
+                           let x := [36; 99] in
+                           let* oc := cross ev false no_short
+                                        (lift2 (fun st2 a b => let* st3 := update_from st2 a b in Ok ([a], st3)))
+                                        (EVar [36; 108]) (EBin o (EVar x) r) true (([36; 108], [c]) :: (x, [cp]) :: vs) ctx st1 in
+                           Ok (tt, snd oc)) (fst o0) tt (snd o0) in
+        Ok (ctx, snd rr)
     | EDel e1 =>
         let* o := ev e1 true vs ctx st in
         (* victims back to front, each deleted once; a victim is located in its
